@@ -81,6 +81,10 @@ func c12Shapes() []mb.Msg {
 		{PGP: 1, Parts: []mb.Part{{Type: "application/pgp-encrypted", Content: []byte("Version: 1\r\n"), Enc: "usascii"}, {Type: "application/octet-stream", Content: c12Text, Enc: "usascii"}}},                // 25
 		{PGP: 2, Parts: []mb.Part{p(""), {Type: "application/pgp-signature", Content: c12Text, Enc: "usascii"}}},                                                                                                // 26
 		{PGP: 1, Parts: []mb.Part{{Type: "application/pgp-encrypted", Content: []byte("Version: 1\r\n"), Enc: "usascii"}, {Type: "application/octet-stream", Content: c12Text}}, Attach: []mb.File{f("a.bin")}}, // 27
+		// every kind of header line go-mail writes: generic (one and several values, an empty one, a long one that is folded), preformatted, Cc / Reply-To
+		{Parts: []mb.Part{p("")}, Preform: [][2]string{{"X-Pre", "preformatted value;\r\n continued on a second line"}}},                                                                                                              // 28
+		{Parts: []mb.Part{p(""), h}, Attach: []mb.File{f("a.bin")}, Gen: [][2]string{{"X-Gen", "generic value"}, {"X-Long", "a long generic value that has to be folded by the header writer because it exceeds the line length limit"}}, GenEmpty: []string{"X-Empty"}, Preform: [][2]string{{"X-Pre-A", "first"}, {"X-Pre-B", "second;\r\n\tfolded"}}, Cc: []string{"cc1@rcp.example", "cc2@rcp.example"}, ReplyTo: "reply@snd.example"}, // 29
+		{Parts: []mb.Part{p("")}, Preform: [][2]string{{"X-Pre", "signed and preformatted"}}, SMIME: 2},                                                                                                                                // 30
 	}
 }
 
@@ -329,7 +333,7 @@ func init() {
 	vf.Register(&vf.Check{
 		ID: "C12", Title: "render failures are reported — never a panic, never silent success",
 		Run: func(r *vf.Run) {
-			r.SetRule("22 message shapes (5 of them on a Msg object that carried other content before, was rendered and Reset(); single QP/base64/8bit/7bit, alternative, with description, related, mixed, all three levels, attachment-only ×1/×2, S/MIME ×2, mixed encodings, fixed boundary) × render {first, second} × a sink that starts failing at EVERY byte offset k of the output × {accepts the prefix then errors, rejects the whole write}; every producer × {fails before data, after half, after all data} × 8 error values (generic, io.EOF plain and wrapped, io.ErrUnexpectedEOF, context.Canceled, …); the file entry points: WriteToFile onto /dev/full (every write fails), into a missing directory, and WriteToFile / WriteToTempFile while each producer fails; (thorough) producer failure × sink failure on an 8-byte grid; oracle: no panic, err != nil iff something failed, returned count = bytes the sink accepted; distinct by case tuple")
+			r.SetRule("31 message shapes (3 with generic, empty, folded and preformatted header lines; 5 of them on a Msg object that carried other content before, was rendered and Reset(); single QP/base64/8bit/7bit, alternative, with description, related, mixed, all three levels, attachment-only ×1/×2, S/MIME ×2, mixed encodings, fixed boundary) × render {first, second} × a sink that starts failing at EVERY byte offset k of the output × {accepts the prefix then errors, rejects the whole write}; every producer × {fails before data, after half, after all data} × 8 error values (generic, io.EOF plain and wrapped, io.ErrUnexpectedEOF, context.Canceled, …); the file entry points: WriteToFile onto /dev/full (every write fails), into a missing directory, and WriteToFile / WriteToTempFile while each producer fails; (thorough) producer failure × sink failure on an 8-byte grid; oracle: no panic, err != nil iff something failed, returned count = bytes the sink accepted; distinct by case tuple")
 			r.Assume("a sink returns n <= len(p) and a non-nil error when n < len(p)", "S/MIME output length varies per signature; offsets beyond the actual length are fault-free runs")
 			shapes := c12Shapes()
 			var cases []c12Case
